@@ -1,4 +1,5 @@
 import TF.Proofs.MmrMember
+import TF.Proofs.MmrNodeIndex
 /-!
 # C05 — MMR membership proofs stay exact through every history; verification exact
 
@@ -318,5 +319,38 @@ theorem history_preserves_proofs_partial
     obtain ⟨st1, h1, hh1, hs1⟩ := hstep
     obtain ⟨st', h2, hh2⟩ := ih _ st1 hs1 hh1 hrest
     exact ⟨st', by rw [HState.run, h1, Option.bind_some, h2], hh2⟩
+
+/-! ## node-index foundations of the update routines (first part of the missing theory, proved)
+
+`nodeIdx l j = (j+1)·2^(l+1) − 1 − popCount j` is the post-order node index of the root of the aligned block `j` of
+`2^l` leaves.  The update routines find the digests to replace through these indices. -/
+
+/-- `right_lineage_length_and_own_height` (the binary search from the leftmost ancestor) returns, for the node `(l, j)`,
+    the number of trailing one bits of `j` and the height `l` — for every node index below `2^64`; it never runs out
+    of its 65 rounds. -/
+theorem right_lineage_length_and_own_height_exact (l j : Nat) (h : nodeIdx l j < 2 ^ 64) :
+    TF.Model.Mmr.right_lineage_length_and_own_height (nodeIdx l j) = some (TF.trailingOnes j, l) := rll_spec l j h
+example : nodeIdx 2 1 < 2 ^ 64 := by decide +kernel
+
+/-- distinct nodes have distinct indices: a digest stored under a node index belongs to exactly one node -/
+theorem node_numbering_injective (l j l' j' : Nat) (h : nodeIdx l j < 2 ^ 64) (he : nodeIdx l j = nodeIdx l' j') :
+    l = l' ∧ j = j' := nodeIdx_inj l j l' j' h he
+
+/-- `parent`: the parent of the node `(l, j)` is `(l+1, j/2)` -/
+theorem parent_exact (l j : Nat) (hl : l < 63) (h : nodeIdx (l + 1) (j / 2) < 2 ^ 64) :
+    TF.Model.Mmr.parent (nodeIdx l j) = some (nodeIdx (l + 1) (j / 2)) := parent_spec l j hl h
+
+/-- `MmrMembershipProof::get_node_indices`: the `t`-th digest of a proof of leaf `i` is looked up under the index of
+    the sibling block of `i`'s ancestor at level `t` -/
+theorem proof_node_indices_exact (i len : Nat) (hi : i < 2 ^ 63) (hlen : len ≤ 63)
+    (h : nodeIdx len (i / 2 ^ len) < 2 ^ 64) :
+    TF.Model.Mmr.get_node_indices i len = some ((List.range len).map (fun t => nodeIdx t (sibBlk (i / 2 ^ t)))) :=
+  get_node_indices_spec i len hi hlen h
+
+/-- `get_direct_path_indices`: the nodes whose digests a leaf mutation changes are the ancestors `(t, i / 2^t)` -/
+theorem direct_path_indices_exact (i len : Nat) (hi : i < 2 ^ 63) (hlen : len ≤ 63)
+    (h : nodeIdx len (i / 2 ^ len) < 2 ^ 64) :
+    TF.Model.Mmr.get_direct_path_indices i len = some ((List.range (len + 1)).map (fun t => nodeIdx t (i / 2 ^ t))) :=
+  get_direct_path_indices_spec i len hi hlen h
 
 end TF.C05
